@@ -24,7 +24,7 @@ ASSUMPTIONS = [
     "the statistical clause (joint samples) uses 7 standard errors of the sample covariance (false-alarm probability < 1e-9 per entry)",
 ]
 
-from harness.gen_gp import build_kernel, draw_param, gen_points  # noqa: E402
+from harness.gen_gp import build_kernel, draw_param, gen_points, resource_value  # noqa: E402
 
 
 def case(t):
@@ -55,9 +55,9 @@ def case(t):
 
     Xl = gen_points(t, n, d)
     Xs = gen_points(t, ns, d, base=Xl)
-    if klabel == "expdecay":
-        Xl = [x + [float(t.int(1, 9))] for x in Xl]
-        Xs = [x + [float(t.int(1, 9))] for x in Xs]
+    if "expdecay" in klabel:
+        Xl = [x + [resource_value(t, klabel)] for x in Xl]
+        Xs = [x + [resource_value(t, klabel)] for x in Xs]
     X = np.array(Xl, dtype=float).reshape(n, din)
     Xt = np.array(Xs, dtype=float).reshape(ns, din)
     Y = np.array([[t.float(-2.0, 2.0) for _ in range(m)] for _ in range(n)], dtype=float)
@@ -85,7 +85,7 @@ def case(t):
     scale = max(1.0, float(np.max(np.abs(K_lib))), float(np.max(np.abs(kdiag_lib))))
     ib_max = max([float(v) for k_, v in kparams.items() if "inv_bw" in k_ and v is not None] + [1.0])
     # the library smooths sqrt(D) as sqrt(D + 1e-9) (deviation <= 5e-10 cs, attained at D = 0) and expands squared distances (cancellation ~ eps ib^2 d)
-    ktol = (6e-10 + 1e-13 * ib_max**2 * din) * scale * (2 if klabel == "product" else 1)
+    ktol = (6e-10 + 1e-13 * ib_max**2 * din) * scale * (2 if "product" in klabel else 1)
     if ref is not None:
         for nm, a, b in (("K(X,X)", K_lib, ref(X, X)), ("K(X,X*)", Ks_lib, ref(X, Xt)), ("K(X*,X*)", Kss_lib, ref(Xt, Xt))):
             if a.shape != b.shape or not np.allclose(a, b, rtol=1e-12, atol=ktol):
@@ -180,8 +180,8 @@ def case(t):
     # ---- incremental update
     if t.chance(1, 2):
         xn = np.array(gen_points(t, 1, d, base=[x[:d] for x in Xl]), dtype=float)
-        if klabel == "expdecay":
-            xn = np.concatenate([xn, [[float(t.int(1, 9))]]], axis=1)
+        if "expdecay" in klabel:
+            xn = np.concatenate([xn, [[resource_value(t, klabel)]]], axis=1)
         use_sample = t.bool()
         if use_sample:
             seed = t.int(0, 2**31 - 2)
@@ -259,5 +259,5 @@ def case(t):
 
 
 SUBCHECKS = {
-    "dense": {"fn": case, "quick": 48000, "thorough": 800000, "required": ["kernel-as-pair", "fantasies", "model-class", "incremental-update", "sample-and-update", "joint-samples", "expdecay", "product", "warped-2"]},
+    "dense": {"fn": case, "quick": 48000, "thorough": 800000, "required": ["kernel-as-pair", "fantasies", "model-class", "incremental-update", "sample-and-update", "joint-samples", "expdecay", "product", "warped-2", "product-expdecay", "warped-product-expdecay"]},
 }
